@@ -30,7 +30,11 @@ RULE = ("closure/entails/is_equivalent: EVERY set of assertions over 3 variables
         "-> query, compared with the as-coded model on the CURRENT assertion list after every step; ONE joint table "
         "through interleaved check_independence (3 modes) / get_independencies(condition) / marginal_distribution / "
         "conditional_distribution(inplace=False) / copy, every answer against the ORIGINAL table and the table checked "
-        "unchanged after every step.  non-trivial: the assertion set is non-empty / "
+        "unchanged after every step; ONE DAG / BayesianNetwork object through 2-4 rounds of d-separation queries "
+        "(active_trail_nodes, is_dconnected, minimal_dseparator, local_independencies, get_independencies) with FIXED "
+        "conditioning sets, each round followed by one edit (remove_edge, remove_edges_from, remove_node, do(inplace), "
+        "add_edge, add_node), half of them around a collider x->z<-y, z->w with w observed and z->w removed first, "
+        "every answer against C08's model on the CURRENT graph.  non-trivial: the assertion set is non-empty / "
         "the graphs have an edge / the table is not uniform; distinct = canonical input")
 TRUSTED_BASE = ["DiscreteFactor marginalize/product/reduce/normalize and numpy.allclose (the model takes marginals as "
                 "sums of cells; factor algebra is property C01's subject)",
@@ -137,8 +141,15 @@ def cases(tier, seed):
     for i in range(90 if tier == "quick" else 900):
         out.append({"kind": "jses", "shape": rng.choice(SHAPES), "steps": rng.randint(2, 6),
                     "qseed": rng.randint(0, 10**9)})
+    # ---- (e) graph-edit sessions: ONE DAG / BayesianNetwork object, query - edit - query with the SAME conditioning sets
+    for i in range(220 if tier == "quick" else 2200):
+        n = rng.randint(4, 6)
+        _, edges = common.rand_dag(rng, n)
+        out.append({"kind": "ged", "n": n, "edges": edges, "gadget": rng.random() < 0.5,
+                    "cls": rng.choice(["DAG", "DAG", "BN"]), "rounds": rng.randint(2, 4),
+                    "qseed": rng.randint(0, 10**9)})
     # sessions first: they must not be the ones dropped if the budget runs out on a loaded machine
-    out.sort(key=lambda c: 0 if c["kind"] in ("ses", "jses") else 1)
+    out.sort(key=lambda c: 0 if c["kind"] in ("ses", "jses", "ged") else 1)
     return out
 
 
@@ -994,6 +1005,196 @@ def run_jses(case, drv):
     return ok(nontrivial=len(set(cells.values())) > 1, key=key, tags=tags)
 
 
+# ------------------------------------------------------------------ (e) graph-edit sessions
+def _reach(edges, src):
+    adj = {}
+    for u, v in edges:
+        adj.setdefault(u, []).append(v)
+    seen, todo = set(), [src]
+    while todo:
+        x = todo.pop()
+        for y in adj.get(x, []):
+            if y not in seen:
+                seen.add(y)
+                todo.append(y)
+    return seen
+
+
+def run_ged(case, drv):
+    """one DAG / BayesianNetwork object: d-separation queries with fixed conditioning sets, then an edit through the
+    object's public (own or inherited networkx) mutators, then the same queries again, 2-4 rounds.  Every answer must
+    be the answer of C08's model of active_trail_nodes (= path definition) on the CURRENT nodes and edges."""
+    from pgmpy.base import DAG
+    from pgmpy.models import BayesianNetwork
+    rng = random.Random(case["qseed"])
+    n = case["n"]
+    nodes = list(range(n))
+    edges = [tuple(e) for e in case["edges"]]
+    if case["gadget"]:
+        # collider x -> z <- y whose only link to the conditioning set {w} is z -> w
+        x, y, z, w = rng.sample(nodes, 4)
+        keep = [e for e in edges if z not in e and w not in e and set(e) != {x, y}]
+        edges = keep + [(x, z), (y, z), (z, w)]
+        # drop anything that would make a cycle (cannot: z, w only in the gadget edges) ; extra descendants of w
+        for u in nodes:
+            if u not in (x, y, z, w) and rng.random() < 0.3 and not any(u == a for a, b in keep if True and b in (x, y)):
+                if u not in _reach(edges, u) and w not in _reach(edges, u) and x not in _reach(edges, u) and y not in _reach(edges, u):
+                    edges.append((w, u))
+    names = {i: "v%d" % i for i in nodes}
+    idx = {v: k for k, v in names.items()}
+    g = (DAG if case["cls"] == "DAG" else BayesianNetwork)()
+    g.add_nodes_from([names[i] for i in nodes])
+    g.add_edges_from([(names[u], names[v]) for u, v in edges])
+    key = common.canon_key(["ged", n, sorted(case["edges"]), case["gadget"], case["cls"], case["rounds"], case["qseed"]])
+    trace = []
+    tags = ["graph-edit cls=%s n=%d rounds=%d%s" % (case["cls"], n, case["rounds"], " gadget" if case["gadget"] else "")]
+    # the conditioning sets, fixed for the whole session
+    Zs = [sorted(rng.sample(nodes, rng.randint(1, min(3, n - 2)))) for _ in range(rng.randint(2, 3))]
+    if case["gadget"]:
+        Zs.insert(0, [w])
+        if rng.random() < 0.5:
+            Zs.append(sorted({w, rng.choice(nodes)} - {x, y}))
+    pairs_q = [tuple(rng.sample(nodes, 2)) for _ in range(4)]
+    if case["gadget"]:
+        pairs_q.insert(0, (x, y))
+    full_ind = n <= 5 and rng.random() < 0.6
+
+    def where(**kw):
+        d = {"cls": case["cls"], "nodes": list(nodes), "edges": sorted(edges), "trace": trace, "Zs": Zs}
+        d.update(kw)
+        return d
+
+    def m_atn(start, Z):
+        return set(drv.call("c18_atn", [nodes, [list(e) for e in edges], start, list(Z)]))
+
+    def query_all(stage):
+        if sorted(idx[v] for v in g.nodes()) != sorted(nodes) or \
+                sorted((idx[a], idx[b]) for a, b in g.edges()) != sorted(edges):
+            return bad("impl!=model:graph-edit-state", where(stage=stage, impl_edges=sorted((idx[a], idx[b]) for a, b in g.edges())), key=key)
+        for Z0 in Zs:
+            Z = [v for v in Z0 if v in nodes]
+            for start in nodes:
+                if start in Z:
+                    continue
+                exp = m_atn(start, Z)
+                got = {idx[v] for v in g.active_trail_nodes(names[start], observed=[names[v] for v in Z])[names[start]]}
+                if got != exp:
+                    return bad("impl!=model:graph-edit-active_trail_nodes",
+                               where(stage=stage, start=start, Z=Z, impl=sorted(got), model=sorted(exp)), key=key)
+            for a, b in pairs_q:
+                if a in nodes and b in nodes and a not in Z and b not in Z:
+                    d = g.is_dconnected(names[a], names[b], observed=[names[v] for v in Z])
+                    if d is not (b in m_atn(a, Z)):
+                        return bad("impl!=model:graph-edit-is_dconnected",
+                                   where(stage=stage, x=a, y=b, Z=Z, impl=d, model=b in m_atn(a, Z)), key=key)
+        # minimal_dseparator (its ancestral graph is taken from _get_ancestors_of([x, y]))
+        eset = set(edges)
+        for a, b in pairs_q:
+            if a in nodes and b in nodes and (a, b) not in eset and (b, a) not in eset:
+                r = g.minimal_dseparator(names[a], names[b])
+                if r is None:
+                    return bad("impl!=spec:graph-edit-minimal_dseparator-none", where(stage=stage, x=a, y=b), key=key)
+                sep = sorted(idx[v] for v in r)
+                if b in m_atn(a, sep):
+                    return bad("impl!=spec:graph-edit-minimal_dseparator-not-separating", where(stage=stage, x=a, y=b, sep=sep), key=key)
+                for u in sep:
+                    if b not in m_atn(a, [t for t in sep if t != u]):
+                        return bad("impl!=spec:graph-edit-minimal_dseparator-not-minimal", where(stage=stage, x=a, y=b, sep=sep, drop=u), key=key)
+        # local independencies
+        for v in nodes:
+            desc = _reach(edges, v)
+            pa = {a for a, b in edges if b == v}
+            nd = set(nodes) - {v} - desc - pa
+            li = g.local_independencies(names[v]).get_assertions()
+            if nd:
+                ok_ = (len(li) == 1 and {idx[t] for t in li[0].event1} == {v} and {idx[t] for t in li[0].event2} == nd
+                       and {idx[t] for t in li[0].event3} == pa)
+            else:
+                ok_ = not li
+            if not ok_:
+                return bad("impl!=model:graph-edit-local_independencies", where(stage=stage, v=v, impl=str(li)), key=key)
+        if full_ind and len(nodes) <= 5:
+            got = {(frozenset(idx[t] for t in a.event1), frozenset(idx[t] for t in a.event2), frozenset(idx[t] for t in a.event3))
+                   for a in g.get_independencies().get_assertions()}
+            exp = set()
+            for start in nodes:
+                rest = [v for v in nodes if v != start]
+                for r in range(len(rest)):
+                    for Z in itertools.combinations(rest, r):
+                        sepd = set(rest) - set(Z) - m_atn(start, Z)
+                        if sepd:
+                            exp.add((frozenset([start]), frozenset(sepd), frozenset(Z)))
+            if got != exp:
+                return bad("impl!=model:graph-edit-get_independencies",
+                           where(stage=stage, impl_only=[list(map(sorted, t)) for t in sorted(got - exp, key=str)[:3]],
+                                 model_only=[list(map(sorted, t)) for t in sorted(exp - got, key=str)[:3]]), key=key)
+        return None
+
+    b = query_all("initial")
+    if b:
+        return b
+    nxt = n
+    for rd in range(case["rounds"]):
+        ops = ["remove_edge"] * 4 + ["remove_edges_from"] * 2 + ["remove_node", "add_edge", "add_node"]
+        if case["cls"] == "DAG":
+            ops += ["do"] * 2
+        op = rng.choice(ops)
+        if rd == 0 and case["gadget"]:
+            op = rng.choice(["remove_edge", "remove_edge", "remove_edges_from", "do"] if case["cls"] == "DAG"
+                            else ["remove_edge", "remove_edges_from"])
+        if op in ("remove_edge", "remove_edges_from") and not edges:
+            op = "add_node"
+        if op == "remove_edge":
+            e = (z, w) if rd == 0 and case["gadget"] else rng.choice(edges)
+            g.remove_edge(names[e[0]], names[e[1]])
+            edges.remove(e)
+            trace.append([op, list(e)])
+        elif op == "remove_edges_from":
+            es = rng.sample(edges, min(len(edges), rng.randint(1, 2)))
+            if rd == 0 and case["gadget"] and (z, w) not in es:
+                es.append((z, w))
+            g.remove_edges_from([(names[a], names[c]) for a, c in es] + [("nope", "nope2")])
+            for e in es:
+                edges.remove(e)
+            trace.append([op, [list(e) for e in es]])
+        elif op == "remove_node":
+            v = rng.choice(nodes)
+            if len(nodes) <= 3:
+                continue
+            g.remove_node(names[v])
+            nodes.remove(v)
+            edges[:] = [e for e in edges if v not in e]
+            trace.append([op, v])
+        elif op == "do":
+            vs = [w] if rd == 0 and case["gadget"] else rng.sample(nodes, rng.randint(1, 2))
+            r = g.do([names[v] for v in vs] if len(vs) > 1 or rng.random() < 0.5 else names[vs[0]], inplace=True)
+            if r is not g:
+                return bad("impl!=model:graph-edit-do-inplace-returns-copy", where(), key=key)
+            edges[:] = [e for e in edges if e[1] not in vs]
+            trace.append([op, vs])
+        elif op == "add_edge":
+            cand = [(a, c) for a in nodes for c in nodes if a != c and (a, c) not in edges and (c, a) not in edges
+                    and a not in _reach(edges, c)]
+            if not cand:
+                continue
+            e = rng.choice(cand)
+            g.add_edge(names[e[0]], names[e[1]])
+            edges.append(e)
+            trace.append([op, list(e)])
+        elif op == "add_node":
+            names[nxt] = "v%d" % nxt
+            idx[names[nxt]] = nxt
+            g.add_node(names[nxt])
+            nodes.append(nxt)
+            trace.append([op, nxt])
+            nxt += 1
+        b = query_all("after-round-%d" % rd)
+        if b:
+            return b
+        tags.append("graph-edit op=%s" % op)
+    return ok(nontrivial=True, key=key, tags=tags)
+
+
 def run_case(case, drv):
     k = case["kind"]
     if k == "clo":
@@ -1008,6 +1209,8 @@ def run_case(case, drv):
         return run_jpd(case, drv)
     if k == "ses":
         return run_ses(case, drv)
+    if k == "ged":
+        return run_ged(case, drv)
     if k == "jses":
         return run_jses(case, drv)
     return bad("harness:unknown-case-kind", {"kind": k})
